@@ -12,6 +12,7 @@ import ShVerif.Model.C33
   Specification on the abstract map (the argument array must be well-formed):
     specset/specdel/specval/speckeys/specmax/speccount/specslice        → `M k:hex …` etc.
   Program level:  prog <token>* (model)  /  specprog <token>* (map specification); see `parseCmd`.
+                  progrep <token>* → the final `expand.Variable`s of a and b the model predicts.
 -/
 namespace ShVerif.Drv.C33
 open ShVerif ShVerif.C33
@@ -94,6 +95,9 @@ def parseItem (s : String) : Option Item :=
     | _ => none
   | _ => none
 
+def parseVals (s : String) : Option (List Str) :=
+  if s = "" then some [] else (s.splitOn ",").mapM ofHex
+
 def parseVar (s : String) : Option Bool :=
   if s = "a" then some false else if s = "b" then some true else none
 
@@ -110,6 +114,9 @@ def parseCmd (tok : String) : Option Cmd :=
     | [x, "sa", v] => do some (.op (← parseVar x) (.appStr (← ofHex v)))
     | [x, "ue", i] => do some (.op (← parseVar x) (.unsetElem (← i.toInt?)))
     | [x, "ua"] => do some (.op (← parseVar x) .unsetAll)
+    | [x, "ra", _, vs] => do some (.op (← parseVar x) (.readArr (← parseVals vs)))   -- read -a variants
+    | [x, "mf", _, vs] => do some (.op (← parseVar x) (.mapfile (← parseVals vs)))   -- mapfile / readarray
+    | [x, "da", es] => do some (.op (← parseVar x) (.assign (← parseElems es)))      -- declare -a x=(…)
     | [x, "cp"] => do some (.copy (← parseVar x) false)
     | [x, "ca"] => do some (.copy (← parseVar x) true)
     | [x, "lo", es] => do some (.localAssign (← parseVar x) (← parseElems es))
@@ -236,18 +243,32 @@ def stepCmd {σ} (sem : Sem σ) (s : PState σ) : Cmd → Option (PState σ)
       | .sub => some { s with a := a0, b := b0, saved := none }
       | .fn => some { s with a := if s.la then a0 else s.a, b := if s.lb then b0 else s.b, saved := none }
 
-def runProg {σ} (sem : Sem σ) (toks : List String) : String :=
+def runCmds {σ} (sem : Sem σ) (s : PState σ) : List Cmd → Option (PState σ)
+  | [] => some s
+  | c :: cs => match stepCmd sem s c with
+    | some s' => runCmds sem s' cs
+    | none => none
+
+def runProgWith {σ} (sem : Sem σ) (toks : List String) (render : PState σ → String) : String :=
   match toks.mapM parseCmd with
   | none => "bad-op"
   | some cmds =>
-    let rec go (s : PState σ) : List Cmd → Option (PState σ)
-      | [] => some s
-      | c :: cs => match stepCmd sem s c with
-        | some s' => go s' cs
-        | none => none
-    match go ⟨sem.init, sem.init, none, .sub, false, false, []⟩ cmds with
+    match runCmds sem ⟨sem.init, sem.init, none, .sub, false, false, []⟩ cmds with
     | none => "panic"
-    | some s => String.join (s.out.reverse.map (· ++ "|"))
+    | some s => render s
+
+def runProg {σ} (sem : Sem σ) (toks : List String) : String :=
+  runProgWith sem toks fun s => String.join (s.out.reverse.map (· ++ "|"))
+
+def b01 (b : Bool) : String := if b then "1" else "0"
+
+/-- The Go `expand.Variable` the model predicts at the end of the program (`Runner.Vars`). -/
+def showVar (v : Var) : String :=
+  match v.kind with
+  | .unknown => "unset"
+  | .str => "str:" ++ b01 v.set ++ ":" ++ toHex v.str
+  | .indexed => "arr:" ++ b01 v.set ++ ":" ++ toHex v.str ++ ":" ++ showIdx v.arr.idx ++ ":" ++
+      ";".intercalate (v.arr.list.map toHex)
 
 def handle (args : List String) : String :=
   match args with
@@ -324,6 +345,7 @@ def handle (args : List String) : String :=
       | none => "neglen"
     | _, _, _ => "bad-op"
   | "prog" :: toks => runProg varSem toks
+  | "progrep" :: toks => runProgWith varSem toks fun s => "a=" ++ showVar s.a ++ " b=" ++ showVar s.b
   | "specprog" :: toks => runProg mapSem toks
   | _ => "bad-op"
 
